@@ -11,7 +11,7 @@ RUN_MOD = L.RUN_MOD
 MODEL_TARGETS = ["C01/Run.vo"]
 PROOF_TARGETS = ["C01/Basics.vo", "C01/Lemmas.vo", "C01/LemmasFact.vo", "C01/LemmasTable.vo", "C01/FactList.vo", "C01/FactExp.vo",
                  "C01/FactProps.vo", "C01/FactAll.vo", "C01/FactSmart1.vo", "C01/FactSmart2.vo", "C01/FactSmart3.vo", "C01/FactSmart4.vo",
-                 "C01/LemmasTop.vo"]
+                 "C01/FactFuel.vo", "C01/LemmasTop.vo"]
 PROPS = ["C01/Props.v"]
 ALLOWED_AXIOMS = []
 IMPL_TIMEOUT = 20.0
@@ -112,7 +112,7 @@ def _gen_deep_prefix(rng):
 
 
 def gen_cases(rng, tier):
-    n = 1500 if tier == "thorough" else 220
+    n = 4000 if tier == "thorough" else 220
     cases = []
     for i in range(n):
         if i % 8 == 3:
@@ -347,7 +347,8 @@ LEVEL_TEXT = ("Full (model level; all user grammars, all token lists, all iterat
               "table contained in the factorized grammar and any grammar accepted by the validator fact_ok), table_sub (the built "
               "table is contained in the grammar), factorize_ok (fact_ok accepts the result of _factorize_productions for every "
               "user grammar, with and without the smart undo: expanding suffix symbols gives back exactly the user's productions "
-              "in order, helper names fresh, suffix symbols only last), build_hyps_ok.  Examples: parse_sound_build_nonvacuous "
+              "in order, helper names fresh, suffix symbols only last), factorize_fails_only_by_assertion (the modelled "
+              "factorization never runs out of fuel; it fails exactly by the code's assertions), build_hyps_ok.  Examples: parse_sound_build_nonvacuous "
               "(nested common prefixes, nullable symbol, roll-back, both smart values), reserved_name_*_rejected.  Not claimed by "
               "a theorem, only by the per-run correspondence: that the model is the code (trees, is_ambiguous, prods_map, suffix "
               "symbols and error classes agree on every generated case; the Python validator is applied to the implementation's "
